@@ -54,7 +54,8 @@ var ruleTable = []RuleDef{
 	{"R-READ-ONCE", (*Model).ruleREADONCE, "a function that returns a document read outside a transaction obtains it from a single statement on documents"},
 	{"R-POST-ORDER", (*Model).rulePOSTORDER, "in the post function nothing that may acquire a lock is called before the fan-out that enqueues the event"},
 	{"R-FEEDMAP-WRITERS", (*Model).ruleFEEDWRITERS, "a feed-registry entry is only ever updated by appending one new feed to the existing entry"},
-	{"R-LOOPVAR", (*Model).ruleLOOPVAR, "with pre-1.22 loop-variable semantics (go.mod), no goroutine started inside a loop captures the loop variable"},
+	{"R-PKG-STATE", (*Model).rulePKGSTATE, "package-level slices, arrays and maps are read-only after the package initialiser: no operation stores to one or hands it to a call that may write it (nothing guards them)"},
+	{"R-LOOPVAR", (*Model).ruleLOOPVAR, "with pre-1.22 loop-variable semantics (go.mod), no goroutine started inside a loop captures the loop variable, and the address of a loop variable is not kept past its iteration"},
 	{"R-FEED-START", (*Model).ruleFEEDSTART, "on every path a started feed is registered for live events or has its end marker queued"},
 	{"R-TOMB-XATTRS", (*Model).ruleTOMBXATTRS, "a tombstoning statement binds xattrs that were filtered after being read (or are known empty), never the row's xattrs as read"},
 	{"R-ERR-OVERWRITE", (*Model).ruleERROVERWRITE, "an error stored in a variable is examined or used before the variable is assigned again (no failure of one step or loop iteration is replaced by the outcome of a later one)"},
